@@ -56,12 +56,31 @@ def _status_reader(w, name, context, args):
             r.status
 
 
+def _container_skipper(w, name, context, args):
+    """user hook calling the documented Feature.skip()/Rule.skip() on the running container after the k-th scenario
+    (k symbolic): the remaining parts are skipped, what already ran keeps its status."""
+    if name != "after_scenario":
+        return
+    n = getattr(w, "_skip_calls", 0)
+    w._skip_calls = n + 1
+    if w.sx.int("skip_container_after") == n:
+        r = getattr(context, "rule", None) if "rule" in context else None
+        if r is not None and w.sx.bool("skip_the_rule"):
+            w.events.append(("container-skip", "rule", n))
+            r.skip()
+        else:
+            w.events.append(("container-skip", "feature", n))
+            context.feature.skip()
+
+
 def h_stage1(sx):
     p = sx.params
     checks = p.get("checks", ["verdict"])
     extra = None
     if p.get("opts", {}).get("read_status_in_hooks"):
         extra = {"hooks": True, "fault": bool(p["opts"].get("fault")), "hook_probe": _status_reader}
+    if p.get("opts", {}).get("skip_container_in_hooks"):
+        extra = {"hooks": True, "fault": False, "hook_probe": _container_skipper}
     w, flags = build_world(sx, extra)
     if "exitcode" in checks:
         rc = _run_through_main(w)
